@@ -55,7 +55,18 @@ FRACTIONS = [('recognize_number', 'one third', 'en-us'), ('recognize_number', '‰
              ('recognize_number', 'un tercio', 'es-es'), ('recognize_number', 'um ter√ßo', 'pt-br'),
              ('recognize_number', '‰∏âÂàÜ„ÅÆ‰∏Ä', 'ja-jp'), ('recognize_number', '‰∏ÉÂàÜ‰πã‰∫å', 'zh-cn'),
              ('recognize_percentage', 'ÁôæÂàÜ‰πã‰∏âÂçÅ‰∏â', 'zh-cn'), ('recognize_number', 'ein drittel', 'de-de'),
-             ('recognize_number', 'one sixth of the cake and 1/3', 'en-us'), ('recognize_number', '1/7', 'en-us')]
+             ('recognize_number', 'one sixth of the cake and 1/3', 'en-us'), ('recognize_number', '1/7', 'en-us'),
+             # precision stress: amounts whose exact value needs more than 15 significant digits, on every path that
+             # does Decimal arithmetic outside the digit parser (compound currency sums, percentages, units)
+             ('recognize_currency', '12345678901234 dollars and 45 cents', 'en-us'),
+             ('recognize_currency', '99999999999999 dollars and 99 cents', 'en-us'),
+             ('recognize_currency', '1234567890123456 euros and 5 cents', 'en-us'),
+             ('recognize_currency', '12345678901234.5 dollars', 'en-us'),
+             ('recognize_number', '12345678901234567.891', 'en-us'), ('recognize_number', '0.12345678901234567', 'en-us'),
+             ('recognize_number', '1234567890123456789', 'en-us'), ('recognize_percentage', '12345678901234567.5%', 'en-us'),
+             ('recognize_dimension', '12345678901234567.5 km', 'en-us'), ('recognize_temperature', '1234567890123456.75 degrees', 'en-us'),
+             ('recognize_number', '1234567890123456,789', 'fr-fr'), ('recognize_number', '12345678901234567', 'zh-cn'),
+             ('recognize_number', 'three and 12345678901234567 eighteenths', 'en-us')]
 
 SPEC_FN = {('Number', 'Number'): 'recognize_number', ('Number', 'Ordinal'): 'recognize_ordinal',
            ('Number', 'Percent'): 'recognize_percentage',
